@@ -3,14 +3,21 @@
 
   Property theorems only. Model: GeoModel/Simplify.lean. Helper lemmas (the `Within` relation,
   the farthest-vertex fold, the inductions over `computeRdp`, the linked-list invariants of
-  Visvalingam-Whyatt): GeoProofs/Lemmas/C09Rdp.lean, GeoProofs/Lemmas/C09Vw.lean.
+  Visvalingam-Whyatt): GeoProofs/Lemmas/C09Rdp.lean, GeoProofs/Lemmas/C09Vw.lean; heap order and
+  entry bookkeeping of the `BinaryHeap` mirror: GeoProofs/Lemmas/C09PHeap.lean; the queue-coverage
+  loop invariant of `visvalingam_indices`: GeoProofs/Lemmas/C09PExit.lean, of `visvalingam_preserve`:
+  GeoProofs/Lemmas/C09PExitP.lean.
 
   All theorems hold for every `INITIAL_MIN` (`mn`), every coordinate list (repeated, collinear,
   back-tracking vertices, closed rings, 0-3 vertices) and every tolerance.
 -/
 import GeoModel.Simplify
+import GeoModel.Ops.C09
 import GeoProofs.Lemmas.C09Rdp
 import GeoProofs.Lemmas.C09Vw
+import GeoProofs.Lemmas.C09PHeap
+import GeoProofs.Lemmas.C09PExit
+import GeoProofs.Lemmas.C09PExitP
 import Mathlib.Tactic.NormNum
 
 namespace Geo.Proofs.C09
@@ -151,6 +158,57 @@ theorem rdp_single_pinned_witness (x : RI) :
   · simp [computeRdpPinnedSingle]
   · simp [computeRdp]
 
+/-! ### the priority queue (`std::collections::BinaryHeap<VScore>` mirror) -/
+
+/-- [T] what the heap-order invariant `HeapInv` says, on the entries themselves: every parent's
+area is at most its children's (`Ord for VScore` is reversed, so the max-heap of the standard
+library keeps the smallest area at the root). -/
+theorem heap_inv_iff (d : Heap) :
+    HeapInv d ↔ ∀ (i : Nat) (hi : i < d.length), 0 < i →
+      (d[(i - 1) / 2]'(by omega)).area ≤ d[i].area := by
+  constructor
+  · intro h i hi h0
+    have := h i h0 hi (Nat.zero_le _)
+    rw [val_get (v := d[(i - 1) / 2]'(by omega)) (List.getElem?_eq_getElem (by omega)),
+      val_get (v := d[i]) (List.getElem?_eq_getElem hi)] at this
+    exact this
+  · intro h i h0 hi _
+    rw [val_get (v := d[(i - 1) / 2]'(by omega)) (List.getElem?_eq_getElem (by omega)),
+      val_get (v := d[i]) (List.getElem?_eq_getElem hi)]
+    exact h i hi h0
+
+/-- [T] `BinaryHeap::from(vec)` (`rebuild`) establishes the heap order and holds exactly the
+entries of `vec`. -/
+theorem heap_from_inv (v : List VScore) : HeapInv (heapFrom v) ∧ (heapFrom v).Perm v :=
+  ⟨(heapFrom_heap v).2, heapFrom_perm v⟩
+
+/-- [T] `push` (`sift_up`) preserves the heap order and adds exactly the pushed entry. -/
+theorem heap_push_inv (d : Heap) (item : VScore) (h : HeapInv d) :
+    HeapInv (heapPush d item) ∧ (heapPush d item).Perm (item :: d) :=
+  ⟨(heapPush_heap d item h).2, heapPush_perm d item⟩
+
+/-- [T] `pop` (`sift_down_to_bottom` + `sift_up`) preserves the heap order, removes exactly the
+entry it returns, and that entry has minimal area among the entries present; `pop` answers `None`
+only on the empty queue. -/
+theorem heap_pop_min (d : Heap) (h : HeapInv d) :
+    (heapPop d = none ↔ d = []) ∧
+    ∀ (s : VScore) (d' : Heap), heapPop d = some (s, d') →
+      HeapInv d' ∧ d.Perm (s :: d') ∧ (∀ x ∈ d, s.area ≤ x.area) ∧ (∀ x ∈ d', s.area ≤ x.area) := by
+  refine ⟨⟨heapPop_none, fun e => by rw [e]; rfl⟩, ?_⟩
+  intro s d' hp
+  obtain ⟨_, h1, h2⟩ := heapPop_heap h hp
+  have hperm := heapPop_perm hp
+  exact ⟨h1, hperm, h2, fun x hx => h2 x (hperm.mem_iff.2 (List.mem_cons_of_mem _ hx))⟩
+
+/-- non-vacuity: a concrete queue built by `from` and one `push` satisfies the hypothesis
+`HeapInv` (by the two theorems above), is not empty, and `pop` returns its entry of area 1 -/
+example :
+    HeapInv (heapPush (heapFrom [⟨0, 1, 2, 5, false⟩, ⟨1, 2, 3, 3, false⟩, ⟨2, 3, 4, 4, false⟩])
+      ⟨3, 4, 5, 1, false⟩) ∧
+    (heapPop (heapPush (heapFrom [⟨0, 1, 2, 5, false⟩, ⟨1, 2, 3, 3, false⟩, ⟨2, 3, 4, 4, false⟩])
+      ⟨3, 4, 5, 1, false⟩)).map (·.1) = some ⟨3, 4, 5, 1, false⟩ :=
+  ⟨(heap_push_inv _ _ (heap_from_inv _).1).1, by decide +kernel⟩
+
 /-! ### Visvalingam-Whyatt -/
 
 /-- [T] `simplify_vw(ε)` and `simplify_vw_idx(ε)` with `ε ≤ 0` are the identity. -/
@@ -228,6 +286,69 @@ theorem vw_ring_closed (r : List Pt) (eps : Rat) (hc : SM.isClosed r = true) :
     simp only [SM.isClosed, decide_eq_true_eq] at hc ⊢
     rw [h1, h2, hc]
   simp [SM.close, this]
+
+/-- [T] (DESIGN §7 C09 T2) exit invariant of `visvalingam_indices`, on positions: any three
+consecutive kept positions `i, j, k` span a triangle of area (`Triangle::unsigned_area`, exact)
+strictly above the tolerance. Loop invariant (GeoProofs/Lemmas/C09PExit.lean, `vwLoop_exit`):
+for every live vertex `v` with current proper neighbours `(l, r)` the queue holds an entry
+`(l, v, r, area l v r)` (possibly beside stale entries, which the loop skips); the loop stops
+only on an empty queue or when the popped entry - a minimum, by `heap_pop_min` - has area `> ε`.
+Holds for every tolerance (also `ε ≤ 0`, the pinned `simplify_vw_idx`). -/
+theorem vw_exit_invariant_idx (cs : List Pt) (eps : Rat) (pre post : List Nat) (i j k : Nat)
+    (h : visvalingamIndices cs eps = pre ++ i :: j :: k :: post) :
+    eps < triArea (coordAt cs i) (coordAt cs j) (coordAt cs k) :=
+  visIdx_triple cs eps pre post i j k h
+
+/-- [T] (DESIGN §7 C09 T2) exit invariant of `simplify_vw(ε)`, `ε > 0`, on the output: every
+three consecutive retained vertices `a, b, c` span a triangle of area `> ε`. (For `ε ≤ 0` the
+output is the input, `vw_eps_nonpos`.) -/
+theorem vw_exit_invariant (cs : List Pt) (eps : Rat) (he : 0 < eps) (pre post : List Pt)
+    (a b c : Pt) (h : visvalingam cs eps = pre ++ a :: b :: c :: post) :
+    eps < triArea a b c := by
+  rw [vis_eq cs eps (not_le.2 he)] at h
+  obtain ⟨l1, l2, hl, _, h2⟩ := List.map_eq_append_iff.1 h
+  obtain ⟨i, l3, hl3, ha, h3⟩ := List.map_eq_cons_iff.1 h2
+  obtain ⟨j, l4, hl4, hb, h4⟩ := List.map_eq_cons_iff.1 h3
+  obtain ⟨k, l5, hl5, hc, _⟩ := List.map_eq_cons_iff.1 h4
+  rw [hl3, hl4, hl5] at hl
+  rw [← ha, ← hb, ← hc]
+  exact vw_exit_invariant_idx cs eps l1 l5 i j k hl
+
+/-- non-vacuity: the documentation example of `simplify_vw` keeps three vertices (one triple) -/
+example : visvalingam [⟨5, 2⟩, ⟨3, 8⟩, ⟨6, 20⟩, ⟨7, 25⟩, ⟨10, 10⟩] 30 =
+    [] ++ (⟨5, 2⟩ : Pt) :: ⟨7, 25⟩ :: ⟨10, 10⟩ :: [] := by decide +kernel
+
+example : (0 : Rat) < 30 := by norm_num
+
+private theorem areasAbove_of_triples (eps : Rat) : ∀ (l : List Pt),
+    (∀ (pre post : List Pt) (a b c : Pt), l = pre ++ a :: b :: c :: post → eps < triArea a b c) →
+    Geo.Ops.C09.areasAbove eps l = true
+  | [], _ => rfl
+  | [_], _ => rfl
+  | [_, _], _ => rfl
+  | a :: b :: c :: t, h => by
+    simp only [Geo.Ops.C09.areasAbove, Bool.and_eq_true, decide_eq_true_eq]
+    refine ⟨h [] t a b c rfl, areasAbove_of_triples eps (b :: c :: t) ?_⟩
+    intro pre post a' b' c' hl
+    exact h (a :: pre) post a' b' c' (by rw [hl]; rfl)
+
+/-- [T] the clause `vw-area-not-above-eps` that the driver's checker (`Geo.Ops.C09.areasAbove`)
+evaluates on every implementation output of `simplify_vw` can never fail on the model's output. -/
+theorem vw_exit_invariant_checker (cs : List Pt) (eps : Rat) (he : 0 < eps) :
+    Geo.Ops.C09.areasAbove eps (visvalingam cs eps) = true :=
+  areasAbove_of_triples eps _ (fun pre post a b c h => vw_exit_invariant cs eps he pre post a b c h)
+
+/-- [T] the same for `simplify_vw_idx(ε)`, `ε > 0`. -/
+theorem vw_exit_invariant_simplify_idx (cs : List Pt) (eps : Rat) (he : 0 < eps)
+    (pre post : List Nat) (i j k : Nat) (h : simplifyVwIdx cs eps = pre ++ i :: j :: k :: post) :
+    eps < triArea (coordAt cs i) (coordAt cs j) (coordAt cs k) := by
+  have hs : simplifyVwIdx cs eps = visvalingamIndices cs eps := by
+    simp [simplifyVwIdx, not_le.2 he]
+  rw [hs] at h
+  exact vw_exit_invariant_idx cs eps pre post i j k h
+
+example : simplifyVwIdx [⟨5, 2⟩, ⟨3, 8⟩, ⟨6, 20⟩, ⟨7, 25⟩, ⟨10, 10⟩] 30 = [] ++ 0 :: 3 :: 4 :: [] := by
+  decide +kernel
 
 /-- [T] witness of the defect repaired by the second `fix:` commit: the pinned
 `simplify_vw_idx(0)` drops the collinear middle vertex while `simplify_vw(0)` keeps it; the
@@ -331,6 +452,62 @@ theorem vwp_ring (mpts : Nat) (r : List Pt) (eps : Rat) (tree : List Seg) (out :
       rw [h1, h2, hc]
     simp [SM.close, this]
   · intro h4; omega
+
+/-- [T] exit invariant of `simplify_vw_preserve(ε)`, `ε > 0`: when the loop returns (no `assert!`
+fires) and the output has more than `INITIAL_MIN` and more than `MIN_POINTS` coordinates, every
+three consecutive retained vertices span a triangle of area `> ε`. The two size hypotheses are the
+algorithm's own stopping rules, not proof restrictions: the loop also stops when
+`counter <= INITIAL_MIN`, and when the popped triangle intersects the tree and
+`counter <= MIN_POINTS`; `counter` is the number of retained coordinates, so in every other case
+the loop stopped on an empty queue or on a popped minimum above `ε`. Entries demoted to `-ε` by
+`recompute_triangles` are covered (invariant: the live vertex's entry carries its triangle's area
+or `-ε`; at exit all queued areas are `> ε > -ε`). Holds for every content of the shared segment
+tree. -/
+theorem vwp_exit_invariant (imin mpts : Nat) (cs : List Pt) (eps : Rat) (tree : List Seg)
+    (out : List Pt) (tree' : List Seg)
+    (h : visvalingamPreserve imin mpts cs eps tree = some (out, tree'))
+    (he : 0 < eps) (hmin : imin < out.length) (hpts : mpts < out.length)
+    (pre post : List Pt) (a b c : Pt) (hout : out = pre ++ a :: b :: c :: post) :
+    eps < triArea a b c := by
+  unfold visvalingamPreserve at h
+  split at h
+  · rename_i hc
+    rcases hc with hc | hc
+    · simp only [Option.some.injEq, Prod.mk.injEq] at h
+      rw [← h.1] at hout
+      have := congrArg List.length hout
+      simp at this
+      omega
+    · exact absurd hc (not_le.2 he)
+  · rename_i hc
+    split at h
+    · exact absurd h (by simp)
+    · rename_i adj tr hloop
+      simp only [Option.some.injEq, Prod.mk.injEq] at h
+      have hn3 : 3 ≤ cs.length := by omega
+      have hinv := vwpLoop_inv cs eps cs.length imin mpts _ _ _ _ _ adj tr
+        (adjInit_inv _ hn3) (heapFrom_allP (initScores_allP cs)) hloop
+      have hql : (heapFrom (initScores cs)).length = cs.length - 2 := by
+        rw [(heapFrom_heap _).1]; simp [initScores]
+      obtain ⟨hinv2, hex⟩ := vwpLoop_exit cs eps he cs.length imin mpts _ _ _ _ _ adj tr
+        (adjInit_inv _ hn3) (adjInit_inv2 _) (heapFrom_allP (initScores_EP' cs eps)) (heapFrom_heap _).2
+        (initScores_covered cs) (liveCount_init _).symm
+        (by rw [hql, liveCount_init]; unfold vwFuel; omega) hloop
+      have hlen : out.length = liveCount cs.length adj := by
+        rw [← h.1, keep_length adj cs 0, ← List.range_eq_range']; rfl
+      rcases hex with h1 | h1 | h1
+      · omega
+      · omega
+      · rw [← h.1, keep_eq cs (fun i => adj i != (0, 0))] at hout
+        exact triple_of_exit_coords hinv hinv2 h1 pre post a b c hout
+
+/-- non-vacuity: a line string (`INITIAL_MIN = 2`, `MIN_POINTS = 4`) of seven coordinates from
+which `simplify_vw_preserve(3)` removes one; six remain (more than both limits) -/
+example : (visvalingamPreserve 2 4
+    [⟨0, 0⟩, ⟨2, 1⟩, ⟨4, 0⟩, ⟨6, 3⟩, ⟨8, 0⟩, ⟨10, 4⟩, ⟨12, 0⟩] 3
+    (linesOf [⟨0, 0⟩, ⟨2, 1⟩, ⟨4, 0⟩, ⟨6, 3⟩, ⟨8, 0⟩, ⟨10, 4⟩, ⟨12, 0⟩])).map (·.1) =
+      some ([] ++ (⟨0, 0⟩ : Pt) :: ⟨4, 0⟩ :: ⟨6, 3⟩ :: [⟨8, 0⟩, ⟨10, 4⟩, ⟨12, 0⟩]) := by
+  decide +kernel
 
 /-- non-vacuity: the hypothesis of the `vwp_*` theorems is satisfiable on a concrete ring that
 is actually simplified (six coordinates in, four out, as the real code returns) -/
